@@ -93,9 +93,13 @@ class HierDictDocument(DictDocument):
             if self.ignore_wrappers:
                 doc = doc.get(class_name, None)
 
-            result_message = self._doc_to_object(ctx, body_class, doc,
+            if doc is None:
+                # e.g. {"method_name": null}: every argument is absent
+                ctx.in_object = [None] * len(body_class._type_info)
+
+            else:
+                ctx.in_object = self._doc_to_object(ctx, body_class, doc,
                                                                  self.validator)
-            ctx.in_object = result_message
 
         else:
             ctx.in_object = []
